@@ -111,7 +111,15 @@ func VH_C09_merge() {
 	b := rt.Choose(max - p + 1)
 	prefix := vhChain(r, nil, p, 1)
 	localV := vhChain(r, prefix, a, 2)
-	remoteV := vhChain(r, vhCopyVersions(prefix), b, 3)
+	remotePrefix := vhCopyVersions(prefix)
+	foreign := rt.Choose(3) == 2
+	if foreign {
+		// the remote re-committed the very same first version (same id) as another commit:
+		// a different history under the same identity id
+		remotePrefix[0].commitHash = r.AddCommit(r.AddTree(nil))
+		rt.Cover("foreign-root-same-id")
+	}
+	remoteV := vhChain(r, remotePrefix, b, 3)
 	local := &Identity{versions: localV}
 	remote := &Identity{versions: remoteV}
 	id := local.Id()
@@ -127,6 +135,10 @@ func VH_C09_merge() {
 	rt.Assert(local.Id() == id, "id-unchanged-by-merge")
 	head, _ := r.ResolveRef(ref)
 	switch {
+	case foreign:
+		rt.Assert(err != nil, "foreign-history-refused")
+		rt.Assert(head == before[len(before)-1].commitHash && len(r.Log) == 0, "foreign-history-ref-untouched")
+		rt.Assert(len(local.versions) == len(before), "foreign-history-local-untouched")
 	case b == 0:
 		rt.Cover("remote-not-ahead")
 		rt.Assert(err == nil && !updated, "nothing-to-merge-reported")
